@@ -266,6 +266,12 @@ func runOneCase(p *Prop, c *C) {
 			c.Fail("panic", D{"panic": fmt.Sprint(r), "stack": truncStr(stack, 6000)})
 		}
 	}()
+	// case 1 of a check that names construct families first runs the parked-overlap monitor over them (overlap.go)
+	if plan, ok := overlapPlan[p.ID]; ok && c.Idx == 1 {
+		if !parkedOverlap(c, plan.kind, plan.fams...) {
+			return
+		}
+	}
 	p.Run(c)
 }
 
